@@ -47,7 +47,9 @@ type Solver struct {
 	Time     time.Duration
 	Log      io.Writer
 	TimeoutS int
-	dead     bool
+	// NextTimeoutMs, when > 0, is the soft timeout applied to the following queries (z3).
+	NextTimeoutMs int
+	dead          bool
 	LastErr  string
 }
 
@@ -258,6 +260,9 @@ func (s *Solver) Check(asserts []*Term, wantModel []*Term) (Result, []*big.Int) 
 	all := append(append([]*Term(nil), asserts...), wantModel...)
 	s.define(all)
 	var sb strings.Builder
+	if s.NextTimeoutMs > 0 && s.Kind != "cvc5" {
+		fmt.Fprintf(&sb, "(set-option :timeout %d)\n", s.NextTimeoutMs)
+	}
 	sb.WriteString("(push 1)\n")
 	for _, a := range asserts {
 		if a.IsTrue() {
@@ -530,4 +535,111 @@ func OneShot(kind string, script string, timeoutS int) (Result, time.Duration, s
 		}
 	}
 	return Unknown, d, txt
+}
+
+// Portfolio decides the conjunction on fresh one-shot processes of all three solvers in parallel
+// (non-incremental solving is often far stronger than the push/pop session); the first definite
+// verdict wins. Used as a fallback when the incremental session answers unknown/timeout.
+func Portfolio(ctx *Ctx, asserts []*Term, want []*Term, timeoutS int) (Result, []*big.Int, string) {
+	s := &Solver{ctx: ctx, emitted: map[int]bool{}, declUF: map[string]bool{}}
+	var sb strings.Builder
+	s.in = nopCloser{&sb}
+	sb.WriteString("(set-option :produce-models true)\n(set-logic ALL)\n")
+	s.define(append(append([]*Term(nil), asserts...), want...))
+	for _, a := range asserts {
+		if !a.IsTrue() {
+			fmt.Fprintf(&sb, "(assert %s)\n", ref(a))
+		}
+	}
+	sb.WriteString("(check-sat)\n")
+	if len(want) > 0 {
+		for i := 0; i < len(want); i += 64 {
+			j := i + 64
+			if j > len(want) {
+				j = len(want)
+			}
+			sb.WriteString("(get-value (")
+			for _, t := range want[i:j] {
+				sb.WriteString(ref(t))
+				sb.WriteByte(' ')
+			}
+			sb.WriteString("))\n")
+		}
+	}
+	script := sb.String()
+	type ans struct {
+		r    Result
+		out  string
+		kind string
+	}
+	kinds := []string{"z3-new", "cvc5", "z3"}
+	ch := make(chan ans, len(kinds))
+	var cmds []*exec.Cmd
+	for _, k := range kinds {
+		var bin string
+		var args []string
+		switch k {
+		case "cvc5":
+			bin, args = "cvc5", []string{"--lang=smt2", fmt.Sprintf("--tlimit=%d", timeoutS*1000)}
+		default:
+			bin, args = k, []string{"-in", fmt.Sprintf("-T:%d", timeoutS)}
+		}
+		cmd := exec.Command(bin, args...)
+		cmd.Stdin = strings.NewReader(script)
+		cmds = append(cmds, cmd)
+		go func(k string, cmd *exec.Cmd) {
+			out, _ := cmd.CombinedOutput()
+			txt := string(out)
+			r := Unknown
+			if !strings.Contains(txt, "(error") {
+				for _, line := range strings.Split(txt, "\n") {
+					line = strings.TrimSpace(line)
+					if line == "sat" {
+						r = Sat
+						break
+					}
+					if line == "unsat" {
+						r = Unsat
+						break
+					}
+				}
+			} else if strings.HasPrefix(strings.TrimSpace(txt), "unsat") {
+				// errors after an unsat verdict come from get-value; the verdict stands
+				r = Unsat
+			}
+			ch <- ans{r, txt, k}
+		}(k, cmd)
+	}
+	res, who := Unknown, ""
+	var vals []*big.Int
+	for i := 0; i < len(kinds); i++ {
+		a := <-ch
+		if a.r == Unknown {
+			continue
+		}
+		res, who = a.r, a.kind
+		if a.r == Sat && len(want) > 0 {
+			idx := strings.Index(a.out, "sat")
+			rest := a.out[idx+3:]
+			// concatenate all get-value answers
+			toks := tokenize(rest)
+			// each answer is "((name val) ...)": parse sequentially
+			pos := 0
+			for pos < len(toks) {
+				end := skipSexp(toks, pos)
+				vals = append(vals, parseValues(strings.Join(toks[pos:end], " "))...)
+				pos = end
+			}
+			for len(vals) < len(want) {
+				vals = append(vals, big.NewInt(0))
+			}
+		}
+		break
+	}
+	for _, c := range cmds {
+		if c.Process != nil {
+			c.Process.Kill()
+		}
+	}
+	return res, vals, who
 }
